@@ -69,6 +69,10 @@ CHECKS = {
             "Seeded histories under the simulated clock: objects (files and a directory object) enter a LocalHashFileDB or generic store raw (hash-state cold) or through the real add() (state warm), are tampered at a later simulated time (truncate, append, same-length rewrite, rewrite, replace-by-rename optionally with the old mtime restored) always leaving a mode other than exactly 0444, intact objects get chmod-ed away from 0444, the clock advances, and check / hashfile.check(tree) / oids_exist / exists / checkout of a referencing tree / add(verify=True) from a corrupt source are issued in random order and repetition. A byte-level model decides per query: tampered => rejected and removed, never reported existing, never materialised by checkout, never retained by a verifying add; intact => never rejected, deleted or changed, protected after a successful check on the local class.",
             "Tampering that is invisible to (inode, mtime, size) - an in-place same-length rewrite at an unchanged mtime - is not generated (C13 counts and excludes it).",
             "deterministic simulation: seeded tamper/query histories under a simulated clock vs byte-level model", "DESIGN.md §5 C07"),
+    "C13": ("exploration",
+            "Seeded histories over <=12 files (2% of runs 1000-2100 files, for the SQL parameter-batch boundary) under a simulated clock that advances by 0 .. 1 day, steps backwards and ticks coarsely (1us/1ms/1s/2s): write, in-place overwrite with the same or another length, append, atomic replace (new inode, optionally same length), touch, delete, re-create; interleaved queries state.get, get_many (batch knob 2/3/7/999, stat info supplied or not), hash_file(state), build(dry_run), build_entries(compute_hash), index md5 and update(new, old); injected rows of another algorithm, of the legacy algorithm name and of a newer format version; lookups/saves through a non-local filesystem. Every returned hash is compared with the reference digest of the file's current bytes at that instant; batch and single answers must agree; a mutation that leaves (inode, mtime, size) all identical is detected from the recorded real stat triples, counted and excluded rather than generated away.",
+            "mtimes are kept >= 1us apart (the token is built from the float st_mtime). Caller-supplied stat info is always fresh.",
+            "deterministic simulation: seeded mutation/query histories under a simulated clock (advance, step back, coarse ticks) vs reference digests", "DESIGN.md §5 C13"),
 }
 
 NA_FIXED = {
